@@ -175,3 +175,30 @@ Theorem raw_ops_never_call : forall n fr r k rest s s',
             builtin_call (S n) fr BRawGet (VTab r :: k :: rest) s' = Ret [v] s'.
 Proof. exact rawget_meta_independent_lemma. Qed.
 Print Assumptions raw_ops_never_call.
+
+(* tostring / getmetatable / setmetatable honour __tostring and __metatable *)
+Theorem tostring_handler : forall n fr v s,
+  is_nil (metafield s v s_mm_tostring) = false ->
+  tostring_v (S n) fr v s = first_of (call n fr (metafield s v s_mm_tostring) [v] s).
+Proof. exact tostring_handler_lemma. Qed.
+Print Assumptions tostring_handler.
+
+Theorem getmetatable_field_rule : forall n fr v rest s,
+  builtin_call (S n) fr BGetMt (v :: rest) s =
+  if negb (is_nil (metafield s v s_mm_metatable)) then Ret [metafield s v s_mm_metatable] s
+  else match metatable_of s v with Some m => Ret [VTab m] s | None => Ret [VNil] s end.
+Proof. exact getmetatable_lemma. Qed.
+Print Assumptions getmetatable_field_rule.
+
+Theorem setmetatable_protected : forall n fr r m rest s,
+  is_nil (metafield s (VTab r) s_mm_metatable) = false ->
+  is_err_unchanged s (builtin_call (S n) fr BSetMt (VTab r :: m :: rest) s).
+Proof. exact setmetatable_protected_lemma. Qed.
+Print Assumptions setmetatable_protected.
+
+Theorem setmetatable_sets : forall n fr r m rest s,
+  is_nil (metafield s (VTab r) s_mm_metatable) = true ->
+  builtin_call (S n) fr BSetMt (VTab r :: VTab m :: rest) s =
+  Ret [VTab r] (with_tabs s (set_nth (tabs s) r (mkTab (t_kv (tab_of s r)) (Some m)))).
+Proof. exact setmetatable_sets_lemma. Qed.
+Print Assumptions setmetatable_sets.
